@@ -29,7 +29,7 @@ type vmItem struct {
 
 func (s vstep) String() string {
 	switch s.Op {
-	case "enable", "suspend", "statusless":
+	case "enable", "suspend", "statusless", "mfa":
 		return s.Op
 	case "delete-version":
 		return fmt.Sprintf("delete-version(%s,#%d-newest)", s.Key, s.Which)
@@ -134,6 +134,53 @@ func vExecStep(s *drv.Server, bucket string, m *model.VersionModel, st vstep, st
 			} else if m.Ever {
 				m.SetVersioning(false)
 			}
+		}
+	case "mfa":
+		// a configuration that flips the Status and asks for MFA delete, which the server does
+		// not support. If it refuses the configuration, the configuration must not have been
+		// applied: the status reported before and after is the same (and every later step is
+		// judged against the unchanged model). If it accepts, the reported state is taken over.
+		want := "Enabled"
+		if m.Enabled {
+			want = "Suspended"
+		}
+		status := func() (string, *vfail) {
+			g := s.Do(&drv.Req{Method: "GET", Path: "/" + bucket, Query: "versioning"})
+			var vc struct {
+				Status string `xml:"Status"`
+			}
+			if g.Status != 200 || drv.ParseXML(g.Body, &vc) != nil {
+				return "", fail("get-versioning-failed", g.String())
+			}
+			return vc.Status, nil
+		}
+		before, f := status()
+		if f != nil {
+			return f
+		}
+		resp := s.Do(&drv.Req{Method: "PUT", Path: "/" + bucket, Query: "versioning",
+			Body: []byte(`<VersioningConfiguration xmlns="http://s3.amazonaws.com/doc/2006-03-01/"><Status>` + want + `</Status><MfaDelete>Enabled</MfaDelete></VersioningConfiguration>`)})
+		if resp.Panic != nil {
+			return fail("panic", fmt.Sprintf("set-versioning panicked: %v", resp.Panic))
+		}
+		after, f := status()
+		if f != nil {
+			return f
+		}
+		if r != nil {
+			r.Count("mfa_delete_configurations", 1)
+		}
+		if resp.Status < 200 || resp.Status > 299 {
+			if r != nil {
+				r.Count("mfa_delete_configurations_refused", 1)
+			}
+			if after != before {
+				return fail("refused-configuration-applied", fmt.Sprintf("PUT ?versioning (Status %s, MfaDelete Enabled) answered %s, yet GET ?versioning reports %q where it reported %q before", want, resp, after, before))
+			}
+		} else if after == "Enabled" {
+			m.SetVersioning(true)
+		} else if m.Ever {
+			m.SetVersioning(false)
 		}
 	case "put":
 		body := []byte(fmt.Sprintf("h%d-s%d-%s-", hist, stepNo, st.Key))
@@ -552,6 +599,8 @@ func genVersionHistory(rng interface{ Intn(int) int }, keys []string, n int) []v
 			steps = append(steps, vstep{Op: "enable"})
 		case x < 93:
 			steps = append(steps, vstep{Op: "statusless"})
+		case x < 95:
+			steps = append(steps, vstep{Op: "mfa"})
 		default:
 			steps = append(steps, vstep{Op: "suspend"})
 		}
@@ -562,7 +611,7 @@ func genVersionHistory(rng interface{ Intn(int) int }, keys []string, n int) []v
 func runC05(c *Ctx) {
 	r := c.R
 	exhLen := r.Pick(5, 8)
-	r.SetRule(fmt.Sprintf("bounded-exhaustive: every history of length %d over {put, delete, delete-version(newest), delete-version(oldest), enable, suspend} on one key from a never-versioned bucket; random: histories of 20-60 steps over 3 keys incl. versioning configurations without a Status element, multi-delete with and without version ids and unknown ids and copies of a key onto itself with other metadata; after every step every version id ever handed out is read by GET and HEAD ?versionId and every key is read unqualified (GET+HEAD) and compared with VersionModel; memory backend; distinct = distinct step sequences", exhLen))
+	r.SetRule(fmt.Sprintf("bounded-exhaustive: every history of length %d over {put, delete, delete-version(newest), delete-version(oldest), enable, suspend} on one key from a never-versioned bucket; random: histories of 20-60 steps over 3 keys incl. versioning configurations without a Status element and configurations that flip the Status while asking for MFA delete (refused: the status must stay), multi-delete with and without version ids and unknown ids and copies of a key onto itself with other metadata; after every step every version id ever handed out is read by GET and HEAD ?versionId and every key is read unqualified (GET+HEAD) and compared with VersionModel; memory backend; distinct = distinct step sequences", exhLen))
 	r.Exhaustive(true)
 	alpha := []vstep{{Op: "put", Key: "vk"}, {Op: "delete", Key: "vk"}, {Op: "delete-version", Key: "vk", Which: 0}, {Op: "delete-version", Key: "vk", Which: 9},
 		{Op: "enable"}, {Op: "suspend"}}
